@@ -124,7 +124,7 @@ class C03Engine(Engine):
             return [('damage', 200, 50)]
         if tier == 'thorough':
             return [('damage', 500000, 1000)]
-        return [('damage', 36000, 250)]
+        return [('damage', 30000, 250)]
 
     # ------------------------------------------------------------------
     def _fault(self, tape, files, idx, res):
@@ -133,7 +133,7 @@ class C03Engine(Engine):
         toks = tokens(text)
         lines = text.split('\n')
         kind = tape.weighted([(16, 'torn'), (14, 'lost'), (10, 'dup'), (8, 'misdirected'), (10, 'reorder'),
-                              (18, 'bitrot'), (8, 'shear'), (8, 'literal'), (8, 'stray')])
+                              (18, 'bitrot'), (8, 'shear'), (8, 'literal'), (8, 'stray'), (12, 'swap-in')])
         site = '-'
 
         def tok_at(pos):
@@ -208,6 +208,31 @@ class C03Engine(Engine):
                 site = 'line'
                 lines[i], lines[j] = lines[j], lines[i]
                 text = '\n'.join(lines)
+        elif kind == 'swap-in':
+            # a token-sized misdirected write: a token is overwritten by a token of the same class
+            # (identifier, number, string) from elsewhere in this or another file
+            cands = [t_ for t_ in toks if t_[2] in ('id', 'int', 'float', 'string')]
+            if cands and tape.chance(60):
+                # line first, then a token on it: short lines (example and attrs lines, tags) get the
+                # same attention as long ones
+                starts = [0]
+                for ln in lines:
+                    starts.append(starts[-1] + len(ln) + 1)
+                li = tape.draw(len(lines))
+                on_line = [t_ for t_ in cands if starts[li] <= t_[0] < starts[li + 1]]
+                if on_line:
+                    cands = on_line
+            if cands:
+                s0, e0, k0 = cands[tape.draw(len(cands))]
+                src_text = files[tape.draw(len(files))][1] if tape.chance(30) else text
+                src = [(a, b) for a, b, c in tokens(src_text) if c == k0 or
+                       (k0 in ('int', 'float') and c in ('int', 'float'))]
+                if src:
+                    near = [x for x in src if abs(x[0] - s0) < 400] if src_text is text else []
+                    pool = near if near and tape.chance(70) else src
+                    a, b = pool[tape.draw(len(pool))]
+                    site = k0
+                    text = text[:s0] + src_text[a:b] + text[e0:]
         elif kind == 'bitrot':
             if toks and tape.chance(60):
                 s, e, k = toks[tape.draw(len(toks))]
@@ -252,12 +277,19 @@ class C03Engine(Engine):
         t = tape
         # ---- workload ------------------------------------------------------------------------
         src = t.weighted([(70, 'model'), (18, 'snippet'), (12, 'garbage')])
+        confused = None
         channel = 'argv'
         read_sizes = None
         if src == 'model':
             cfg = specgen.Cfg(max_ns=t.rng(1, 2), max_types=t.rng(1, 5), tag_annotations=True,
                               nested_label_lists=True)
             model = specgen.gen_model(t, cfg)
+            if t.chance(35):
+                from .. import confuse
+                what = confuse.confuse(t, model)
+                if what:
+                    confused = what
+                    bump(res['faults'], 'confuse')
             sch = layout.make_schedule(t, model)
             files = [[fn.replace('/', '_'), txt] for fn, txt in sch.files]
             channel = 'argv' if sch.channel == 'recursive' else sch.channel
@@ -279,10 +311,13 @@ class C03Engine(Engine):
         original = [f[1] for f in files]
         nfaults = t.rng(1, 3) if src != 'garbage' else t.rng(0, 1)
         applied = []
+        if confused:
+            nfaults = t.rng(0, 1)
+            applied.append(('confuse', confused.split(' ')[0], '-'))
         for _ in range(nfaults):
             idx = t.draw(len(files))
             applied.append(self._fault(t, files, idx, res) + (files[idx][0],))
-        changed = [f[1] for f in files] != original
+        changed = [f[1] for f in files] != original or bool(confused)
         if changed:
             bump(res['probes'], 'fault_fired')
         mode = t.weighted([(55, 'direct'), (30, 'cli'), (15, 'stdin')])
@@ -291,7 +326,7 @@ class C03Engine(Engine):
         for fn, txt in files:
             ev.append('file %s %r' % (fn, txt))
         ev.append('faults %r mode=%s' % (applied, mode))
-        res['trace'] = [{'source': src, 'mode': mode, 'faults': [list(a) for a in applied]}]
+        res['trace'] = [{'source': src, 'mode': mode, 'faults': [list(a) for a in applied], 'confused': confused}]
         res['artefacts']['specs'] = {fn: txt for fn, txt in files}
 
         # ---- execute ------------------------------------------------------------------------------
